@@ -2,7 +2,7 @@
    record of one completed write() call.  Reader-side facts (what a load may return), the reader's
    per-iteration invariant, the acceptance argument, and the lift to whole-system runs. *)
 From Coq Require Import ZArith List Bool Arith NArith Lia.
-From CB Require Import Gen GenProofs Machine MachineFacts SeqlockInv.
+From CB Require Import Gen GenProofs Machine MachineFacts SeqlockInv GenCyc.
 Import ListNotations.
 Open Scope nat_scope.
 
@@ -71,19 +71,8 @@ Lemma val_at_ev L p e : ev L p = Some e -> val_at L p = e_val e.
 Proof. unfold val_at, ev. intros ->. reflexivity. Qed.
 
 (* ------------------------------------------------------------------ the acceptance argument *)
-Lemma even_gen_event n L p e : LogInv n L -> (Z.of_nat (evens L) < 32767)%Z ->
-  ev L p = Some e -> e_loc e = LGen -> Z.even (e_val e) = true -> e_val e <> 0%Z ->
-  e_kind e = KEven /\ 0 < e_att e /\ e_val e = (2 * Z.of_nat (evens_upto L p))%Z.
-Proof.
-  intros LI NW E El Hev Hnz. pose proof (L_gen_val _ _ LI NW p e E El) as V.
-  destruct (L_gen_kind _ _ LI p e E El) as [K|[K|K]]; rewrite K in V.
-  - exfalso. rewrite V in Hev. rewrite Z.even_add, Z.even_mul in Hev. discriminate.
-  - split; [exact K|]. split; [apply (L_pos _ _ LI p e E); auto | exact V].
-  - exfalso. apply Hnz. exact V.
-Qed.
-
 Theorem accept_one_attempt n L q1 e1 cur1 cur2 q2 e2 (cells : list (nat * nat)) :
-  LogInv n L -> (Z.of_nat (evens L) < 32767)%Z ->
+  LogInv n L -> GenCyc L -> (Z.of_nat (evens_upto L q2) < Z.of_nat (evens_upto L q1) + 32767)%Z ->
   ev L q1 = Some e1 -> e_loc e1 = LGen -> Z.even (e_val e1) = true -> e_val e1 <> 0%Z ->
   e_rel e1 <= cur1 -> cur1 <= cur2 ->
   (forall i p, In (i, p) cells -> exists ce, ev L p = Some ce /\ e_loc ce = LCell i /\ legal L cur1 (LCell i) p /\ e_rel ce <= cur2) ->
@@ -92,16 +81,18 @@ Theorem accept_one_attempt n L q1 e1 cur1 cur2 q2 e2 (cells : list (nat * nat)) 
   0 < e_att e1 /\ e_kind e1 = KEven /\
   forall i p, In (i, p) cells -> val_at L p = nth i (rec_of n (e_att e1)) 0%Z.
 Proof.
-  intros LI NW E1 El1 Hev Hnz Hrel1 Hc12 Hcells Hlt Hleg2 Hq12 E2 Hval.
-  destruct (even_gen_event n L q1 e1 LI NW E1 El1 Hev Hnz) as (K1 & A1 & V1).
+  intros LI GC Hwin E1 El1 Hev Hnz Hrel1 Hc12 Hcells Hlt Hleg2 Hq12 E2 Hval.
+  destruct (even_gen_event_cyc n L q1 e1 LI GC E1 El1 Hev Hnz) as (K1 & A1 & V1).
   destruct Hleg2 as (e2' & E2' & El2 & M2). rewrite E2 in E2'. inversion E2'; subst e2'. clear E2'.
   assert (Hev2 : Z.even (e_val e2) = true) by (rewrite Hval; exact Hev).
   assert (Hnz2 : e_val e2 <> 0%Z) by (rewrite Hval; exact Hnz).
-  destruct (even_gen_event n L q2 e2 LI NW E2 El2 Hev2 Hnz2) as (K2 & A2 & V2).
+  destruct (even_gen_event_cyc n L q2 e2 LI GC E2 El2 Hev2 Hnz2) as (K2 & A2 & V2).
   assert (Hq : q1 = q2).
   { destruct (Nat.eq_dec q1 q2) as [|Hne]; [assumption|]. exfalso.
     assert (Hlt' : q1 < q2) by lia.
-    pose proof (evens_upto_even_strict L q1 q2 e2 Hlt' E2 K2). rewrite V1, V2 in Hval. lia. }
+    pose proof (evens_upto_even_strict L q1 q2 e2 Hlt' E2 K2) as Hst. rewrite V1, V2 in Hval.
+    pose proof (evens_upto_pos L q1 e1 E1 K1) as Hpos.
+    assert (evens_upto L q1 = evens_upto L q2) by (apply gv_inj_window; [lia | lia | exact Hwin | symmetry; exact Hval]). lia. }
   subst q2. rewrite E1 in E2. inversion E2; subst e2. clear E2 Hval Hev2 Hnz2 K2 A2 V2.
   split; [exact A1|]. split; [exact K1|].
   destruct (L_even _ _ LI q1 e1 E1 K1) as [Hr1 Hall].
@@ -163,10 +154,10 @@ Lemma negb_or3 a b c' : (a || b || c')%bool = false -> a = false /\ b = false /\
 Proof. destruct a, b, c'; cbn; intros H; try discriminate; auto. Qed.
 
 Theorem r_step_inv c L r ch r' it ret : safe_cfg c = true -> rel_bounded L ->
-  LogInv (c_cells c) L -> (Z.of_nat (evens L) < 32767)%Z -> RInv c L r ->
+  LogInv (c_cells c) L -> GenCyc L -> RInv c L r ->
   r_step c L r ch = Some (r', it, ret) -> RInv c L r'.
 Proof.
-  intros Hs RB LI NW (Hcu & Hac & H) S. destruct (safe_parts c Hs) as (_ & _ & Ag1 & Ag2 & Af & _ & Pr & Hn).
+  intros Hs RB LI GC (Hcu & Hac & H) S. destruct (safe_parts c Hs) as (_ & _ & Ag1 & Ag2 & Af & _ & Pr & Hn).
   unfold is_acq_fence in Af. destruct (c_r_fence c) as [fo|] eqn:Ef; [|discriminate].
   unfold r_step in S. rewrite ?Ef in S. destruct (r_pc r) as [| | g todo acc b | g acc b | g acc b] eqn:PC.
   - (* version load *)
@@ -231,20 +222,15 @@ Proof.
       split.
       { (* it is not 0: it lies at or after an even store, so it is not an initial event, and the
            even stores carry 2, 4, ... *)
-        destruct (even_gen_event _ L (r_g1pos r) e1 LI NW E1 El1) as (K1 & A1 & _); [rewrite Ev1; exact He | rewrite Ev1; exact Hz|].
+        destruct (even_gen_event_cyc _ L (r_g1pos r) e1 LI GC E1 El1) as (K1 & A1 & _); [rewrite Ev1; exact He | rewrite Ev1; exact Hz|].
         assert (Hpq : r_g1pos r <= p) by lia.
         pose proof (L_att_mono _ _ LI (r_g1pos r) p e1 e2 E1 E2 Hpq) as Hmono.
-        pose proof (L_gen_val _ _ LI NW p e2 E2 El2) as V2. rewrite Xv in Even2 |- *.
-        destruct (L_gen_kind _ _ LI p e2 E2 El2) as [K|[K|K]]; rewrite K in V2.
-        - rewrite V2, Z.even_add, Z.even_mul in Even2. discriminate.
-        - intros Hz2. rewrite V2 in Hz2.
-          assert (1 <= evens_upto L p).
-          { unfold evens_upto. assert (Hp : p < length L) by (eapply ev_lt; eauto).
-            clear - E2 K Hp. revert p E2 Hp. induction L as [|a L IH]; intros p E2 Hp; [cbn in Hp; lia|].
-            destruct p as [|p]; cbn [firstn evens].
-            - unfold ev in E2. cbn in E2. inversion E2; subst a. unfold is_even_kind. rewrite K. lia.
-            - unfold ev in *. cbn [nth_error] in E2. cbn [length] in Hp. specialize (IH p E2 ltac:(lia)). cbn [firstn] in IH. lia. }
-          lia.
+        rewrite Xv in Even2 |- *.
+        destruct (L_gen_kind _ _ LI p e2 E2 El2) as [K|[K|K]].
+        - pose proof (GC_odd _ GC p e2 E2 K) as V2. destruct (pre_gv_odd (evens_upto L p)) as [O _].
+          rewrite <- V2, <- Z.negb_even, Even2 in O. discriminate.
+        - pose proof (GC_even _ GC p e2 E2 K) as V2. rewrite V2.
+          pose proof (evens_upto_pos L p e2 E2 K) as Hp1. apply (gv_pos (evens_upto L p)). lia.
         - apply (L_init0 _ _ LI p e2 E2) in K as [Hz0 _]. lia. }
       split; [rewrite Cv; lia|]. split; [lia|]. split; [rewrite Cg; lia|].
       split; [split; [reflexivity | intros i q []] | rewrite app_nil_l; reflexivity].
@@ -281,12 +267,25 @@ Proof.
   specialize (H3 i Hin). apply Nat.ltb_lt in H3. exact H3.
 Qed.
 
-Theorem r_step_accept_pos c L r ch r' it : safe_cfg c = true -> LogInv (c_cells c) L -> (Z.of_nat (evens L) < 32767)%Z ->
+Definition in_iteration (pc : rpc) : bool :=
+  match pc with RCopy _ _ _ _ | RFence _ _ _ | RReload _ _ _ => true | _ => false end.
+
+(* the side condition of the acceptance argument: fewer than 32767 publications completed since
+   the generation store this iteration started from.  (With 32767 or more the 16-bit counter may
+   show the same value again: C02_aba_witness.) *)
+Definition window_ok (L : list event) (r : rst) : Prop :=
+  in_iteration (r_pc r) = true -> (Z.of_nat (evens L) < Z.of_nat (evens_upto L (r_g1pos r)) + 32767)%Z.
+
+Lemma window_of_nowrap L r : (Z.of_nat (evens L) < 32767)%Z -> window_ok L r.
+Proof. intros H _. lia. Qed.
+
+Theorem r_step_accept_pos c L r ch r' it : safe_cfg c = true -> LogInv (c_cells c) L -> GenCyc L -> window_ok L r ->
   RInv c L r -> r_step c L r ch = Some (r', it, Some RetFresh) ->
   exists e, ev L (r_g1pos r) = Some e /\ e_loc e = LGen /\ e_kind e = KEven /\ 0 < e_att e /\
-            r_cache r' = rec_of (c_cells c) (e_att e) /\ r_g1pos r <= coh_gen (r_view r').
+            r_cache r' = rec_of (c_cells c) (e_att e) /\ r_g1pos r <= coh_gen (r_view r') /\
+            r_cache_gen r' = e_val e /\ e_val e <> 0%Z.
 Proof.
-  intros Hs LI NW (Hcu & Hac & H) S. destruct (safe_parts c Hs) as (_ & _ & _ & _ & _ & _ & Pr & Hn).
+  intros Hs LI GC Hw (Hcu & Hac & H) S. destruct (safe_parts c Hs) as (_ & _ & _ & _ & _ & _ & Pr & Hn).
   destruct (accept_needs_equal_even c L r ch r' it S) as (g & acc & b & v & p & PC & D).
   rewrite PC in H. destruct H as ((e1 & cur1 & E1 & El1 & Ev1 & He & Hz & Hr1 & Hc1 & Hco & (Hacc & Hcells) & Hord) & Hacq).
   pose proof D as D'. apply do_read_spec in D' as (e2 & E2 & El2 & Xv & Lg & Co & _). cbn in Co.
@@ -299,14 +298,16 @@ Proof.
   { intros i q Hin. destruct (Hcells i q Hin) as (ce & A & B & C' & D2). exists ce. repeat split; auto. lia. }
   assert (Hq12 : r_g1pos r <= p) by lia.
   assert (Hval : e_val e2 = e_val e1) by (rewrite Ev1; symmetry; exact Xv).
+  assert (Hwin : (Z.of_nat (evens_upto L p) < Z.of_nat (evens_upto L (r_g1pos r)) + 32767)%Z).
+  { pose proof (evens_upto_le L p). unfold window_ok in Hw. rewrite PC in Hw. specialize (Hw eq_refl). lia. }
   destruct (accept_one_attempt (c_cells c) L (r_g1pos r) e1 cur1 (cur (r_view r)) p e2 (r_cellpos r)
-              LI NW E1 El1 Hev1 Hnz1 Hr1 Hc1 Hcells' Hlt Lg Hq12 E2 Hval) as (A1 & K1 & Hvals).
+              LI GC Hwin E1 El1 Hev1 Hnz1 Hr1 Hc1 Hcells' Hlt Lg Hq12 E2 Hval) as (A1 & K1 & Hvals).
   exists e1. split; [exact E1|]. split; [exact El1|]. split; [exact K1|]. split; [exact A1|].
   (* the cache and the view after the accepting step *)
-  assert (Ecache : r_cache r' = assemble (c_cells c) acc /\ r_view r' = v).
-  { unfold r_step in S. rewrite PC, D, Z.eqb_refl in S. inversion S. split; reflexivity. }
-  destruct Ecache as [Ecache Ev'].
-  split; [|rewrite Ev'; apply do_read_spec in D as (e3 & E3 & _ & _ & _ & Co3 & _ & _ & Cg3); rewrite Cg3; cbn in Co3; lia].
+  assert (Ecache : r_cache r' = assemble (c_cells c) acc /\ r_view r' = v /\ r_cache_gen r' = g).
+  { unfold r_step in S. rewrite PC, D, Z.eqb_refl in S. inversion S. repeat split; reflexivity. }
+  destruct Ecache as (Ecache & Ev' & Eg').
+  split; [|split; [rewrite Ev'; apply do_read_spec in D as (e3 & E3 & _ & _ & _ & Co3 & _ & _ & Cg3); rewrite Cg3; cbn in Co3; lia | split; [rewrite Eg', Ev1; reflexivity | exact Hnz1]]].
   rewrite Ecache. apply assemble_rec.
   - intros i Hi. pose proof (is_perm_all _ _ Pr i Hi) as Hin. rewrite <- Hord in Hin. apply in_rev in Hin.
     apply in_map_iff in Hin as ([i' q] & Ei & Hin). cbn in Ei. subst i'.
@@ -315,11 +316,11 @@ Proof.
     apply (Hvals i q Hin).
 Qed.
 
-Theorem r_step_accept c L r ch r' it : safe_cfg c = true -> LogInv (c_cells c) L -> (Z.of_nat (evens L) < 32767)%Z ->
+Theorem r_step_accept c L r ch r' it : safe_cfg c = true -> LogInv (c_cells c) L -> GenCyc L -> window_ok L r ->
   RInv c L r -> r_step c L r ch = Some (r', it, Some RetFresh) ->
   exists a q e, 0 < a /\ ev L q = Some e /\ e_kind e = KEven /\ e_att e = a /\ r_cache r' = rec_of (c_cells c) a.
 Proof.
-  intros Hs LI NW RI S. destruct (r_step_accept_pos c L r ch r' it Hs LI NW RI S) as (e & E & _ & K & A & C & _).
+  intros Hs LI GC Hw RI S. destruct (r_step_accept_pos c L r ch r' it Hs LI GC Hw RI S) as (e & E & _ & K & A & C & _).
   exists (e_att e), (r_g1pos r), e. auto.
 Qed.
 
@@ -339,11 +340,11 @@ Proof. intros [H|H]; [left; exact H | right; apply published_app, H]. Qed.
 Lemma CacheOk_new c L : CacheOk c L (r_new c L).
 Proof. left. reflexivity. Qed.
 
-Theorem cache_step c L r ch r' it ret : safe_cfg c = true -> LogInv (c_cells c) L -> (Z.of_nat (evens L) < 32767)%Z ->
+Theorem cache_step c L r ch r' it ret : safe_cfg c = true -> LogInv (c_cells c) L -> GenCyc L -> window_ok L r ->
   RInv c L r -> CacheOk c L r -> r_step c L r ch = Some (r', it, ret) -> CacheOk c L r'.
 Proof.
-  intros Hs LI NW RI CO S. destruct (r_step_cache c L r ch r' it ret S) as [[-> _]|(_ & Ec & _)].
-  - right. destruct (r_step_accept c L r ch r' it Hs LI NW RI S) as (a & q & e & R). exists a, q, e. exact R.
+  intros Hs LI GC Hw RI CO S. destruct (r_step_cache c L r ch r' it ret S) as [[-> _]|(_ & Ec & _)].
+  - right. destruct (r_step_accept c L r ch r' it Hs LI GC Hw RI S) as (a & q & e & R). exists a, q, e. exact R.
   - unfold CacheOk. rewrite Ec. exact CO.
 Qed.
 
@@ -355,7 +356,8 @@ Record MInv (c : cfg) (m : mstate) : Prop := {
   M_w : WInv c (m_w m);
   M_rs : Forall (fun r => RInv c (w_log (m_w m)) r /\ CacheOk c (w_log (m_w m)) r) (m_rs m);
   M_valid : m_rs m <> [] -> header_valid (w_log (m_w m)) = true;
-  M_att : w_att (m_w m) <= m_nrec m
+  M_att : w_att (m_w m) <= m_nrec m;
+  M_gen : WInv4 (m_w m)
 }.
 
 Lemma MInv_init c : MInv c (m_init c).
@@ -366,6 +368,7 @@ Proof.
   - constructor.
   - intros H. exfalso. apply H. reflexivity.
   - cbn. lia.
+  - apply WInv4_init.
 Qed.
 
 Lemma w_step_log c w r k w' it : w_step c w r k = (w', it) -> exists x, w_log w' = w_log w ++ x.
@@ -395,12 +398,12 @@ Qed.
 Lemma nowrap_of c m : MInv c m -> (Z.of_nat (m_nrec m) < 32767)%Z -> (Z.of_nat (evens (w_log (m_w m))) < 32767)%Z.
 Proof. intros I H. pose proof (W_evens _ _ (M_w _ _ I)). pose proof (M_att _ _ I). lia. Qed.
 
-Theorem m_step_inv c m t m' o : safe_cfg c = true -> MInv c m -> real_token t ->
-  m_step m t = (m', o) -> (Z.of_nat (m_nrec m') < 32767)%Z ->
+Theorem m_step_inv_win c m t m' o : safe_cfg c = true -> MInv c m -> real_token t ->
+  m_step m t = (m', o) -> Forall (window_ok (w_log (m_w m))) (m_rs m) ->
   MInv c m' /\ m_nrec m <= m_nrec m' /\
   forall j ret rec, In (ORet j ret rec) o -> ret <> RetErr -> rec = repeat 0%Z (c_cells c) \/ published c (w_log (m_w m')) rec.
 Proof.
-  intros Hs I Ht St Hn. pose proof (M_cfg _ _ I) as Ec. pose proof (M_w _ _ I) as WI. pose proof (M_rs _ _ I) as RS.
+  intros Hs I Ht St Hwin. pose proof (M_cfg _ _ I) as Ec. pose proof (M_w _ _ I) as WI. pose proof (M_rs _ _ I) as RS. pose proof (M_gen _ _ I) as WG.
   unfold m_step in St. rewrite Ec in St. destruct t as [| j ch | | | | v]; try contradiction.
   - (* writer step *)
     set (starting := match w_pc (m_w m) with WIdle => true | _ => false end) in *.
@@ -415,18 +418,20 @@ Proof.
         -- rewrite Ex. eapply Forall_impl; [|exact RS]. intros r [A B]. split; [apply RInv_app, A | apply CacheOk_app, B].
         -- intros NE. eapply w_step_valid; [apply (M_valid _ _ I NE) | exact W].
         -- rewrite (w_step_att _ _ _ _ _ _ W). unfold k, starting. pose proof (M_att _ _ I). destruct (w_pc (m_w m)); lia.
+        -- apply (w_step_inv4 c (m_w m) _ k w' (Some it) WG W).
       * unfold k. destruct starting; lia.
       * intros j ret rec [H|[]]. discriminate.
     + split; [exact I|]. split; [lia|]. intros j ret rec [H|[]]. discriminate.
   - (* reader step *)
     destruct (nth_error (m_rs m) j) as [r|] eqn:Er.
     + destruct (r_step c (w_log (m_w m)) r ch) as [[[r' it] ret]|] eqn:R; inversion St; subst m' o; clear St; cbn [m_nrec m_w] in *.
-      * pose proof (nowrap_of c m I Hn) as NW.
+      * pose proof (W4_log _ WG) as GC.
+        assert (Hw : window_ok (w_log (m_w m)) r) by (rewrite Forall_forall in Hwin; apply Hwin; eapply nth_error_In; eauto).
         assert (Hr : RInv c (w_log (m_w m)) r /\ CacheOk c (w_log (m_w m)) r).
         { rewrite Forall_forall in RS. apply RS. eapply nth_error_In; eauto. }
         destruct Hr as [RI CO].
-        pose proof (r_step_inv c _ r ch r' it ret Hs (W_rel_le _ _ WI) (W_log _ _ WI) NW RI R) as RI'.
-        pose proof (cache_step c _ r ch r' it ret Hs (W_log _ _ WI) NW RI CO R) as CO'.
+        pose proof (r_step_inv c _ r ch r' it ret Hs (W_rel_le _ _ WI) (W_log _ _ WI) GC RI R) as RI'.
+        pose proof (cache_step c _ r ch r' it ret Hs (W_log _ _ WI) GC Hw RI CO R) as CO'.
         split; [|split; [lia|]].
         -- constructor; cbn [m_cfg m_w m_rs m_nrec]; auto.
            ++ apply Forall_replace_nth; auto.
@@ -440,7 +445,7 @@ Proof.
   - (* crash *)
     destruct (w_pc (m_w m)) eqn:PC; inversion St; subst m' o; clear St; cbn [m_nrec m_w] in *;
       try (split; [|split; [lia | intros j ret rec []]]; constructor; cbn [m_cfg m_w m_rs m_nrec]; auto;
-           [apply WInv_crash, WI | apply (M_valid _ _ I) | apply (M_att _ _ I)]).
+           [apply WInv_crash, WI | apply (M_valid _ _ I) | apply (M_att _ _ I) | apply WInv4_crash, WG]).
     split; [exact I|]. split; [lia|]. intros j ret rec [H|[]]. discriminate.
   - (* restart *)
     destruct (w_pc (m_w m)) eqn:PC; inversion St; subst m' o; clear St; cbn [m_nrec m_w] in *;
@@ -455,6 +460,7 @@ Proof.
         exfalso. assert (NE : m_rs m <> []) by (rewrite Ers; discriminate). pose proof (M_valid _ _ I NE). congruence.
     + intros NE. pose proof (M_valid _ _ I NE) as HV. apply (w_restart_valid c (m_w m) HV).
     + unfold w_restart. destruct (header_valid (w_log (m_w m))); cbn [w_att]; [apply (M_att _ _ I) | lia].
+    + apply WInv4_restart, WG.
   - (* new reader *)
     destruct (header_valid (w_log (m_w m))) eqn:HV; inversion St; subst m' o; clear St; cbn [m_nrec m_w] in *.
     + split; [|split; [lia | intros j ret rec []]].
@@ -462,6 +468,30 @@ Proof.
       * apply Forall_app. split; [exact RS|]. constructor; [|constructor]. split; [apply RInv_new | apply CacheOk_new].
       * apply (M_att _ _ I).
     + split; [exact I|]. split; [lia|]. intros j ret rec [H|[]]. discriminate.
+Qed.
+
+Lemma m_step_nrec m t m' o : m_step m t = (m', o) -> m_nrec m <= m_nrec m'.
+Proof.
+  intros Sc. unfold m_step in Sc. destruct t as [| j ch | | | | v].
+  - destruct (w_step _ _ _ _) as [w' [it|]]; inversion Sc; subst; cbn; [destruct (w_pc (m_w m)); lia | lia].
+  - destruct (nth_error _ _); [destruct (r_step _ _ _ _) as [[[? ?] ?]|]|]; inversion Sc; subst; cbn; lia.
+  - destruct (w_pc (m_w m)); inversion Sc; subst; cbn; lia.
+  - destruct (w_pc (m_w m)); inversion Sc; subst; cbn; lia.
+  - destruct (header_valid _); inversion Sc; subst; cbn; lia.
+  - destruct (w_pc (m_w m)); inversion Sc; subst; cbn; lia.
+Qed.
+
+(* the special case of runs with fewer than 32767 write() calls: every window is short *)
+Lemma windows_of_nowrap c m : MInv c m -> (Z.of_nat (m_nrec m) < 32767)%Z -> Forall (window_ok (w_log (m_w m))) (m_rs m).
+Proof. intros I Hn. apply Forall_forall. intros r _. apply window_of_nowrap, (nowrap_of c m I Hn). Qed.
+
+Theorem m_step_inv c m t m' o : safe_cfg c = true -> MInv c m -> real_token t ->
+  m_step m t = (m', o) -> (Z.of_nat (m_nrec m') < 32767)%Z ->
+  MInv c m' /\ m_nrec m <= m_nrec m' /\
+  forall j ret rec, In (ORet j ret rec) o -> ret <> RetErr -> rec = repeat 0%Z (c_cells c) \/ published c (w_log (m_w m')) rec.
+Proof.
+  intros Hs I Ht St Hn. pose proof (m_step_nrec m t m' o St) as Hle.
+  apply (m_step_inv_win c m t m' o Hs I Ht St). apply (windows_of_nowrap c m I). lia.
 Qed.
 
 (* once a reader is attached the log only grows (no wipe) and the reader list never shrinks *)
@@ -545,4 +575,64 @@ Proof.
           + destruct (header_valid _); inversion Sc; subst; cbn; lia.
           + destruct (w_pc (m_w ma)); inversion Sc; subst; cbn; lia. }
       specialize (G ts m1 m2 o2 R2). lia.
+Qed.
+
+(* ------------------------------------------------------------------ runs of any length *)
+(* the window condition, stated on the run: at every point of the schedule, every reader that is
+   inside an iteration of snapshot() started it from a generation store that fewer than 32767
+   publications have followed *)
+Fixpoint run_windows (m : mstate) (ts : list token) : Prop :=
+  match ts with
+  | [] => True
+  | t :: ts' => Forall (window_ok (w_log (m_w m))) (m_rs m) /\ run_windows (fst (m_step m t)) ts'
+  end.
+
+Theorem m_run_inv_win c : safe_cfg c = true -> forall ts m m' o, MInv c m -> Forall real_token ts ->
+  m_run m ts = (m', o) -> run_windows m ts ->
+  MInv c m' /\
+  (m_rs m <> [] -> (exists x, w_log (m_w m') = w_log (m_w m) ++ x) /\ m_rs m' <> []) /\
+  forall j ret rec, In (ORet j ret rec) o -> ret <> RetErr ->
+    rec = repeat 0%Z (c_cells c) \/ published c (w_log (m_w m')) rec.
+Proof.
+  intros Hs. induction ts as [|t ts IH]; intros m m' o I Hts R Hw.
+  - cbn in R. inversion R; subst. split; [exact I|]. split.
+    + intros NE. split; [exists []; rewrite app_nil_r; reflexivity | exact NE].
+    + intros j ret rec [].
+  - cbn [m_run] in R. destruct (m_step m t) as [m1 o1] eqn:S1. destruct (m_run m1 ts) as [m2 o2] eqn:R2.
+    inversion R; subst m' o; clear R. inversion Hts as [|? ? Ht Hts']; subst.
+    cbn [run_windows] in Hw. rewrite S1 in Hw. cbn [fst] in Hw. destruct Hw as [Hw0 Hw1].
+    destruct (m_step_inv_win c m t m1 o1 Hs I Ht S1 Hw0) as (I1 & _ & Hret1).
+    destruct (IH m1 m2 o2 I1 Hts' R2 Hw1) as (I2 & Hext2 & Hret2).
+    split; [exact I2|]. split.
+    + intros NE. destruct (m_step_ext c m t m1 o1 I S1 Ht NE) as ((x1 & E1) & NE1).
+      destruct (Hext2 NE1) as ((x2 & E2) & NE2). split; [|exact NE2]. exists (x1 ++ x2). rewrite E2, E1, app_assoc. reflexivity.
+    + intros j ret rec Hin Hne. apply in_app_or in Hin as [Hin|Hin].
+      * destruct (Hret1 j ret rec Hin Hne) as [Hz|Hp]; [left; exact Hz|]. right.
+        pose proof (m_step_oret_readers m t m1 o1 j ret rec S1 Hin) as NE.
+        destruct (m_step_ext c m t m1 o1 I S1 Ht NE) as (_ & NE1).
+        destruct (Hext2 NE1) as ((x2 & E2) & _). rewrite E2. apply published_app, Hp.
+      * apply (Hret2 j ret rec Hin Hne).
+Qed.
+
+(* runs with fewer than 32767 write() calls satisfy the window condition *)
+Lemma m_run_nrec : forall ts m m' o, m_run m ts = (m', o) -> m_nrec m <= m_nrec m'.
+Proof.
+  induction ts as [|t ts IH]; intros m m' o R; cbn [m_run] in R.
+  - inversion R; subst. lia.
+  - destruct (m_step m t) as [m1 o1] eqn:S1. destruct (m_run m1 ts) as [m2 o2] eqn:R2. inversion R; subst.
+    pose proof (m_step_nrec _ _ _ _ S1). pose proof (IH _ _ _ R2). lia.
+Qed.
+
+Lemma run_windows_of_nowrap c : safe_cfg c = true -> forall ts m m' o, MInv c m -> Forall real_token ts ->
+  m_run m ts = (m', o) -> (Z.of_nat (m_nrec m') < 32767)%Z -> run_windows m ts.
+Proof.
+  intros Hs. induction ts as [|t ts IH]; intros m m' o I Hts R Hn; [exact Logic.I|].
+  cbn [m_run] in R. destruct (m_step m t) as [m1 o1] eqn:S1. destruct (m_run m1 ts) as [m2 o2] eqn:R2.
+  inversion R; subst m' o; clear R. inversion Hts as [|? ? Ht Hts']; subst.
+  pose proof (m_step_nrec _ _ _ _ S1) as L1. pose proof (m_run_nrec _ _ _ _ R2) as L2.
+  cbn [run_windows]. rewrite S1. cbn [fst].
+  assert (Hw0 : Forall (window_ok (w_log (m_w m))) (m_rs m)) by (apply (windows_of_nowrap c m I); lia).
+  split; [exact Hw0|].
+  destruct (m_step_inv_win c m t m1 o1 Hs I Ht S1 Hw0) as (I1 & _).
+  apply (IH m1 m2 o2 I1 Hts' R2 Hn).
 Qed.
